@@ -37,12 +37,15 @@ func (g *customGen[V]) value(t *T) V {
 }
 
 func (g *customGen[V]) maybeValue(t *T) (V, bool) {
+	parent := t
 	t = newT(t.tb, t.s, flags.debug, nil)
+	t.parent = parent
 	defer t.cleanup()
 
 	defer func() {
 		if r := recover(); r != nil {
-			if _, ok := r.(invalidData); !ok {
+			// a skip does not undo a non-fatal failure signaled before it
+			if _, ok := r.(invalidData); !ok || t.Failed() {
 				panic(r)
 			}
 		}
